@@ -1,6 +1,7 @@
 (* C09 - .tdda files round-trip: the dictionary level (which keys survive, in which order). *)
 From Coq Require Import ZArith List Bool.
-From Tdda Require Import Base.Sexp Base.Str Generated.Consts Constraints.Serialise Constraints.SerialiseProofs.
+From Tdda Require Import Base.Sexp Base.Str Generated.Consts Constraints.Serialise Constraints.SerialiseProofs
+  Constraints.Json Constraints.JsonProofs Constraints.JsonRoundTrip.
 Import ListNotations.
 Open Scope Z_scope.
 
@@ -37,3 +38,74 @@ Print Assumptions C09_dump_depends_on_known.
 
 Example C09_hash_keys_unknown : @known [35;110;111;116;101] = false /\ @known [109;105;110] = true.
 Proof. split; reflexivity. Qed.
+
+(* ------------------------------------------------------------------ the TEXT of the file (Constraints/Json.v)
+   to_json = strip_lines(json.dumps(d, indent=4, ensure_ascii=False)) + newline; load = json.loads with OrderedDict.
+   The model's printer and strict parser are compared with CPython's json on every text tdda writes, on random
+   values and on damaged / hand-written texts (harness/props/c09.py json_layer). *)
+
+(* strings: any string (field names, values, regular expressions with backslashes and quotes, control characters,
+   any code point) is read back exactly from its quoted, escaped form, whatever follows *)
+Theorem C09_string_text_round_trip : forall s rest,
+  scan_str (flat_map esc_char s ++ 34 :: rest) = Some (s, rest).
+Proof. exact scan_str_quote. Qed.
+Print Assumptions C09_string_text_round_trip.
+
+(* number tokens as the scanner reads them (int and float forms, exponents, NaN and the infinities) are read back
+   whole when followed by a comma or a newline *)
+Theorem C09_number_text_round_trip : forall tok rest,
+  scan_num tok = Some (tok, []) -> delim rest -> scan_num (tok ++ rest) = Some (tok, rest).
+Proof. exact scan_num_app. Qed.
+Print Assumptions C09_number_text_round_trip.
+
+(* values of any nesting depth, at any indentation: the scanner reads the printed value back and stops at its end *)
+Theorem C09_value_text_round_trip : forall f v ind rest,
+  (depth v < f)%nat -> wf v -> delim rest -> parse_val f (print ind v ++ rest) = Some (v, rest).
+Proof. exact parse_print. Qed.
+Print Assumptions C09_value_text_round_trip.
+
+(* the text to_json returns is valid JSON for exactly the value written ... *)
+Theorem C09_text_is_valid_json : forall v, wf v -> parse_json (to_json_text v) = Some v.
+Proof. exact parse_to_json_text. Qed.
+Print Assumptions C09_text_is_valid_json.
+
+(* ... and has no trailing whitespace on any line (str.rstrip's notion of whitespace), ending in one newline *)
+Theorem C09_no_trailing_whitespace : forall v, wf v ->
+  exists body, to_json_text v = body ++ [10] /\ clean None body.
+Proof. exact to_json_text_no_trailing_ws. Qed.
+Print Assumptions C09_no_trailing_whitespace.
+
+(* wf is decidable, and is evaluated on every dictionary tdda writes (extraction entry 34) *)
+Theorem C09_wf_decidable : forall v, wfb v = true -> wf v.
+Proof. exact wfb_wf. Qed.
+Print Assumptions C09_wf_decidable.
+
+(* end to end: a constraint set written as text and read back (parse, OrderedDict, key filtering) is load (dump d) ... *)
+Theorem C09_reread_written : forall md d,
+  dataset_ok d -> match md with Some m => val_ok m | None => True end ->
+  reread (written md d) = Some (load (dump d)).
+Proof. exact reread_written. Qed.
+Print Assumptions C09_reread_written.
+
+(* ... and for a loaded set, what is read back serialises to the IDENTICAL TEXT *)
+Theorem C09_same_text_after_reload : forall md (d0 : @dataset jv),
+  dataset_ok (load d0) -> match md with Some m => val_ok m | None => True end ->
+  exists d', reread (written md (load d0)) = Some d' /\ written md d' = written md (load d0).
+Proof. exact written_reread_written. Qed.
+Print Assumptions C09_same_text_after_reload.
+
+(* the premises are satisfiable by a non-trivial set: a unicode field name, a regular expression with a backslash
+   and a quote, a float needing 17 digits, a precision dictionary, an unknown kind and a # comment that vanish *)
+Definition ex_dataset : @dataset jv :=
+  [([233; 32; 34; 113], [([116; 121; 112; 101], JStr [114; 101; 97; 108]);
+                         ([35; 110], JStr [120]);
+                         ([109; 105; 110], JObj [([118; 97; 108; 117; 101], JNum [48; 46; 51; 48; 48; 48; 48; 48; 48; 48; 48; 48; 48; 48; 48; 48; 48; 48; 48; 52]);
+                                                 ([112; 114; 101; 99; 105; 115; 105; 111; 110], JStr [102; 117; 122; 122; 121])]);
+                         ([119; 104; 97; 116], JNull);
+                         ([114; 101; 120], JArr [JStr [94; 92; 100; 43; 34; 36]; JStr [94; 10; 9; 1; 36]])])].
+
+Example C09_round_trip_example :
+  wfb (json_of_dataset None (dump (load ex_dataset))) = true /\
+  reread (written None (load ex_dataset)) = Some (load ex_dataset) /\
+  List.length (snd (hd ([], []) (load ex_dataset))) = 3%nat.
+Proof. vm_compute. repeat split. Qed.
